@@ -137,6 +137,33 @@ ta_uri = "{TA_URI}"
         self.krill.ca_manager().update_repo(h, contact, false, &self.actor, &self.slow)
     }
 
+    /// A further publisher for `ca` (its own ID certificate) at the embedded publication server, and the
+    /// contact a CA would be given for it. With `service_uri` the contact names that URI instead of the server's
+    /// own one (the local short-cut of the CA manager always addresses the publisher named like the CA, so any
+    /// other publisher has to be reached over HTTP, see `bin/migrate.rs`).
+    pub fn add_second_publisher(&self, ca: &str, publisher: &str, service_uri: Option<String>) -> KrillResult<RepositoryContact> {
+        let c = self.krill.ca_manager().get_ca(&ca_handle(ca))?;
+        let ph = publisher_handle(publisher);
+        let pub_req = PublisherRequest::new(c.id_cert().base64.clone(), ph.clone(), None);
+        self.krill.repo_manager().create_publisher(pub_req, &self.actor)?;
+        self.publisher_contact(publisher, service_uri)
+    }
+
+    /// The repository contact for an existing publisher of the embedded publication server.
+    pub fn publisher_contact(&self, publisher: &str, service_uri: Option<String>) -> KrillResult<RepositoryContact> {
+        let resp = self.krill.repo_manager().repository_response(&publisher_handle(publisher), &self.krill)?;
+        let mut contact = RepositoryContact::try_from_response(resp).map_err(krill::commons::error::Error::rfc8183)?;
+        if let Some(u) = service_uri {
+            contact.server_info.service_uri = rpki::ca::idexchange::ServiceUri::try_from(u).map_err(|_| krill::commons::error::Error::custom("service uri"))?;
+        }
+        Ok(contact)
+    }
+
+    /// Repository migration: the CA is told to publish at `contact` from now on (no reachability check).
+    pub fn repo_migrate(&self, ca: &str, contact: RepositoryContact) -> KrillResult<()> {
+        self.krill.ca_manager().update_repo(ca_handle(ca), contact, false, &self.actor, &self.slow)
+    }
+
     /// Registers `child` under `parent` ("ta" for the trust anchor) with the given entitlement and
     /// tells the child about the parent. No synchronisation is done.
     pub fn add_parent(&self, child: &str, parent: &str, res: ResourceSet) -> KrillResult<()> {
